@@ -115,6 +115,9 @@ def c08(ctx):
     mc_keyframes(ctx, "Untouched: a property without a defining keyframe evaluates to U at every position, with or without override")
     rep = timeline_legA(ctx)
     judge_replay(ctx, rep, lambda m: m.get("class") in ("U", "unmapped", "unanimated-field"), "property / field the timeline does not animate")
+    mc_animator(ctx)          # KeepsOthers: properties the current state's timeline does not animate keep their value
+    rep2 = animator_legA(ctx)
+    judge_replay(ctx, rep2, lambda m: m.get("class") == "untouched", "animator touched a field no timeline animates")
     ctx.assumptions += ["targets are pre-filled with distinct sentinel values in every field (incl. a field without #[animate] and an Option field); untouched = bit-identical afterwards"]
     return "model_checking", RULE_TL
 
@@ -167,3 +170,90 @@ def c03(ctx):
     return "model_checking", ("Apalache: Inv for all integers C>=1,D,N,t; TLC: every timing in the cfg x every tick; leg B: random timings with full 24-bit "
                               "mantissa cycles, at the f32 neighbours of every phase boundary and random times, each observation (phase, flags, position via "
                               "get_position and via Timeline::update) validated by TLC against PhaseImpl; leg A as for C01")
+
+
+# =========================================================================================
+#  state animator: C04 C05 C06 C07
+# =========================================================================================
+NK = 5   # size of the animator configuration pool in MC_Animator.tla
+
+
+def mc_animator(ctx):
+    depth = 6 if ctx.quick() else 8
+    for k in range(1, NK + 1):
+        run_tlc(ctx, "MC_Animator", "MC_Animator_quick.cfg", workers=8, subst={"K": k, "Depth": depth}, timeout=3000)
+    run_tlc(ctx, "MC_Animator", "MC_Animator_asfound_C04.cfg", workers=4, expect_violation="PauseRules")
+    run_tlc(ctx, "MC_Animator", "MC_Animator_asfound_C04nj.cfg", workers=4, expect_violation="NoJump")
+    ctx.extra["model_properties"] = ["NoJump", "PauseRules", "Consistent", "EndedStable", "EndedIff", "TerminalWhenEnded", "NeverEndedIfInfinite", "KeepsOthers"]
+
+
+def animator_legA(ctx):
+    reps = []
+    plans = []
+    for k in range(1, NK + 1):
+        plans.append(("exh", {"K": k, "Depth": 5 if ctx.quick() else 6}, "-3,0,3"))
+        plans.append(("rnd", {"K": k, "Depth": 40, "NRand": 100 if ctx.quick() else 1500, "DTs": "{0, 1, 2, 3, 5, 8}"}, "-3,2"))
+    plans.append(("long", {"K": 5, "Depth": 30, "NRand": 50 if ctx.quick() else 600, "DTs": "{0, 1, 2, 3}", "Big": 16777216}, "-3,0"))
+    plans.append(("long", {"K": 2, "Depth": 30, "NRand": 50 if ctx.quick() else 600, "DTs": "{0, 1, 2, 3}", "Big": 16777216}, "-3,0"))
+    for kind, sub, scales in plans:
+        run = run_tlc(ctx, "MC_Animator", "Gen_Animator_quick.cfg", workers=4, subst=sub, capture="gen-anim.txt", timeout=3000)
+        n = count_replay(run["out"])
+        if n == 0:
+            raise ToolError("animator generator produced no behaviours (%s)" % sub)
+        rep = run_harness(["replay-anim", run["out"], scales])
+        if rep["lines"] != n:
+            raise ToolError("harness read %d of %d behaviours" % (rep["lines"], n))
+        ctx.traces += n * len(scales.split(","))
+        ctx.evaluations += rep["evals"]
+        if kind != "exh" and len(ctx.samples) < 2:
+            for obj in replay_lines(run["out"]):
+                obj["ops"] = obj["ops"][:8]
+                obj["obs"] = obj["obs"][:8]
+                ctx.sample({"replayed_history": obj})
+                break
+        os.remove(run["out"])
+        reps.append(rep)
+    return merge_reports(reps)
+
+
+RULE_AN = ("TLC enumerates ALL histories of advance(dt in {0,1,3})/set_state(s in 4 states) up to the depth in tlc_runs for each of 5 animator "
+           "configurations (finite, delayed, repeating+reversing, infinite, merged, eased and un-animated states), plus pseudo-random histories "
+           "of length 40 and histories that start with one 2^24-tick advance followed by fine frames; every history is replayed on a real "
+           "StateAnimatorBuilder animator at 2-3 tick scales (tick >= 1/8 s, the exact grid of Duration/as_secs_f32) and after EVERY call "
+           "current_state, is_ended, current_values (exact terms), the internal clock and pause record (hook), bit-identity of current_values "
+           "across set_state, and bit-identity with a twin animator that receives the same time in a different partition are compared")
+
+
+def animator_check(ctx, classes, label):
+    mc_animator(ctx)
+    rep = animator_legA(ctx)
+    judge_replay(ctx, rep, lambda m: m.get("class") in classes, label)
+    ctx.assumptions += ["times on the 1/8 s grid or coarser (Duration::from_secs_f32 / as_secs_f32 exact; beyond 2^24 ticks the spec rounds the clock to f32 like as_secs_f32)",
+                        "keyframe positions per property are distinct in the configuration pool"]
+    return "model_checking", RULE_AN
+
+
+@check("C04")
+def c04(ctx):
+    return animator_check(ctx, ("nojump", "same-state"), "current_values changed across set_state / set_state(current) had an effect")
+
+
+@check("C05")
+def c05(ctx):
+    return animator_check(ctx, ("vals", "state", "snap", "untouched"), "values / state / internal clock / pause record differ from the specification")
+
+
+@check("C06")
+def c06(ctx):
+    return animator_check(ctx, ("framerate",), "same history with time delivered in a different partition gives different results")
+
+
+@check("C07")
+def c07(ctx):
+    mc_animator(ctx)
+    mc_timescale(ctx)
+    run_apalache(ctx, "TimeScaleInt", "AfterTotalConstant")
+    rep = animator_legA(ctx)
+    judge_replay(ctx, rep, lambda m: m.get("class") == "ended" or (m.get("class") == "vals" and m.get("exp_ended") is True),
+                 "is_ended differs from the specification, or values do not rest at the terminal values while ended")
+    return "model_checking", RULE_AN
